@@ -163,13 +163,14 @@ impl Connection {
 //@@ spec
     ensures
         !(old(self).local_state is Opened) ==> r is Err && final(self).session_by_incoming_channel@ == old(self).session_by_incoming_channel@,   // [C12.begin-only-when-opened] a begin outside Opened is refused, nothing is mapped
-        old(self).local_state is Opened && begin.remote_channel is Some && !old(self).session_by_outgoing_channel@.contains_key(begin.remote_channel->Some_0 as usize)
+        old(self).local_state is Opened && old(self).session_by_incoming_channel@.contains_key(channel) ==> r is Err && final(self).session_by_incoming_channel@ == old(self).session_by_incoming_channel@,   // [C11.route.channel-in-use-refused] a begin on a channel the peer already uses for a session that is still mapped is refused: it must not silently replace the holder (two mapped sessions behind one channel)
+        old(self).local_state is Opened && !old(self).session_by_incoming_channel@.contains_key(channel) && begin.remote_channel is Some && !old(self).session_by_outgoing_channel@.contains_key(begin.remote_channel->Some_0 as usize)
             ==> r is Err && r->Err_0 is NotFound && final(self).session_by_incoming_channel@ == old(self).session_by_incoming_channel@,        // [C15.begin.unknown-remote-channel] a begin naming a channel we never allocated is an error (not a panic); nothing is mapped
-        old(self).local_state is Opened && begin.remote_channel is Some && old(self).session_by_outgoing_channel@.contains_key(begin.remote_channel->Some_0 as usize)
+        old(self).local_state is Opened && !old(self).session_by_incoming_channel@.contains_key(channel) && begin.remote_channel is Some && old(self).session_by_outgoing_channel@.contains_key(begin.remote_channel->Some_0 as usize)
             ==> r is Ok && r->Ok_0 is Some
                 && final(self).session_by_incoming_channel@ == old(self).session_by_incoming_channel@.insert(channel, old(self).session_by_outgoing_channel@[begin.remote_channel->Some_0 as usize])   // [C11.route.begin-maps] the channel the begin ARRIVED on now designates exactly the session that was begun on remote-channel
                 && *(r->Ok_0->Some_0) == old(self).session_by_outgoing_channel@[begin.remote_channel->Some_0 as usize],
-        old(self).local_state is Opened && begin.remote_channel is None ==> r is Ok && r->Ok_0 is None && final(self).session_by_incoming_channel@ == old(self).session_by_incoming_channel@,
+        old(self).local_state is Opened && !old(self).session_by_incoming_channel@.contains_key(channel) && begin.remote_channel is None ==> r is Ok && r->Ok_0 is None && final(self).session_by_incoming_channel@ == old(self).session_by_incoming_channel@,
         final(self).session_by_outgoing_channel == old(self).session_by_outgoing_channel,
         final(self).local_state == old(self).local_state && final(self).agreed_channel_max == old(self).agreed_channel_max,
 //@@ end
